@@ -236,8 +236,19 @@ def handleCQ (j : Json) : Except String Json := do
     ("tables", Json.arr (q.tables.map Json.str).toArray),
     ("conds", Json.arr (q.conds.map fun p => Json.arr #[cqSExpr p.1, cqSExpr p.2]).toArray),
     ("sel", Json.arr (q.sel.map cqSExpr).toArray)]
-  return Json.mkObj [("selects", Json.arr selJ.toArray), ("denote", cqRows (CQ.denoteRules db rs)),
-                     ("sql_rows", cqRows (CQ.evalUnion db sels))]
+  let base := [("selects", Json.arr selJ.toArray), ("denote", cqRows (CQ.denoteRules db rs)),
+               ("sql_rows", cqRows (CQ.evalUnion db sels))]
+  -- optional aggregation: {"agg": {"keys": n, "op": "sum"|"min"|"max"|"count"}}
+  match j.getObjVal? "agg" with
+  | .ok a => do
+    let n ← a.getObjValAs? Nat "keys"
+    let opS ← str a "op"
+    let op ← match opS with
+      | "sum" => pure CQ.AggOp.sum | "min" => pure CQ.AggOp.min | "max" => pure CQ.AggOp.max
+      | "count" => pure CQ.AggOp.count | _ => throw ("unknown aggregate " ++ opS)
+    return Json.mkObj (base ++ [("group_denote", cqRows (CQ.denoteDistinct db n op rs)),
+                                ("group_sql", cqRows (CQ.evalGroupBy db n op sels))])
+  | .error _ => return Json.mkObj base
 
 /-! ### TypeSolve: scalar constraint solving -/
 def styOfName : String → Except String TypeSolve.STy
